@@ -122,17 +122,17 @@ func (c *Container) addHandler(service *WebService, serveMux *http.ServeMux) boo
 	}
 	// detect if registration already exists
 	alreadyMapped := false
+	// different root paths can share the fixed prefix ; compare what gets registered
+	pattern = strings.TrimRight(pattern, "/")
 	for _, each := range c.webServices {
-		if each.RootPath() == service.RootPath() {
+		if strings.TrimRight(fixedPrefixPath(each.RootPath()), "/") == pattern {
 			alreadyMapped = true
 			break
 		}
 	}
 	if !alreadyMapped {
 		serveMux.HandleFunc(pattern, c.dispatch)
-		if !strings.HasSuffix(pattern, "/") {
-			serveMux.HandleFunc(pattern+"/", c.dispatch)
-		}
+		serveMux.HandleFunc(pattern+"/", c.dispatch)
 	}
 	return false
 }
